@@ -15,12 +15,13 @@ C18_List(c, o) ==
 
 \* scale case
 C18_Scale(c, o) ==
-  LET expectGone == IF c.flag /\ c.n < c.replicas /\ c.replicas # -1
+  LET expectGone == IF c.flag /\ c.n < c.replicas /\ c.replicas # -1 /\ ~c.updfail
                       THEN {x \in R(c.pvcs) : x.tpl \in 1..c.ntpl /\ x.ord >= c.n /\ x.ord < c.replicas} ELSE {}
       gone == R(c.pvcs) \ R(o.pvcs)
-  IN (IF c.replicas # -1 /\ o.replicas # c.n THEN {"replica-count"} ELSE {})
-     \cup (IF \E x \in gone : x.ord < c.n THEN {"deleted-claim-of-remaining-shard"} ELSE {})
-     \cup (IF gone # expectGone /\ ~\E x \in gone : x.ord < c.n THEN {"wrong-claims-deleted"} ELSE {})
+      stays == IF c.updfail THEN c.replicas ELSE c.n      \* shards that exist afterwards
+  IN (IF c.replicas # -1 /\ o.replicas # stays THEN {"replica-count"} ELSE {})
+     \cup (IF \E x \in gone : x.ord < stays THEN {"deleted-claim-of-remaining-shard"} ELSE {})
+     \cup (IF gone # expectGone /\ ~\E x \in gone : x.ord < stays THEN {"wrong-claims-deleted"} ELSE {})
      \cup (IF (c.replicas = c.n \/ c.replicas = -1) /\ o.writes # 0 THEN {"write-when-unchanged"} ELSE {})
      \cup (IF R(o.pvcs) \ R(c.pvcs) # {} THEN {"claims-appeared"} ELSE {})
 
